@@ -106,3 +106,99 @@ Theorem C07_known_finding_D8_diverges : forall fuel c off,
   single_pinned c -> add_chunk fuel c off = OutOfFuel.
 Proof. exact single_chunk_diverges. Qed.
 
+
+(** (5) THE MAP OVER THE CACHE (Flatx.v, Cache_x.v, Io_flat.v, Io_flat_ro.v, Io_cache.v).
+    The map layer also reads beyond the end of the table file (the 8-byte stride over the bucket
+    bitmap, up to 7 bytes); [xrun] is the flat reference extended to such reads (zeros, the file is
+    not extended; specified when the last chunk touched starts at or below the end, which is
+    exactly when the real code does not panic) and the cache is transparent for it too. *)
+From Aby Require Import Iter Stats Layout Flatx Cache_x Io Io_base Io_htx Io_run Io_flat Io_flat_ro Io_cache.
+Import Io.
+
+Theorem C07_cache_transparent_beyond_the_end : forall ops fuel c f f' outs,
+  cache_invx c -> R c f -> xrun (k_cs c) f ops = Some (f', outs) -> (xrun_fuel (k_cs c) f ops <= fuel)%nat ->
+  exists c', crun fuel c ops = Ok (c', outs) /\ cache_invx c' /\ R c' f' /\ logical c' = f_bytes f' /\
+    exists c'', flush c' = Ok c'' /\ k_disk c'' = f_bytes f'.
+Proof. exact cache_refines_xflat. Qed.
+
+(** whichever [VarFile] primitive makes a call ([read_exact] or a [SmallRead] fast path, [write_all],
+    a fitting [write] or a [SmallWrite] fast path, any [SeekFrom] arriving at the position) *)
+Theorem C07_cache_transparent_for_every_way_of_calling : forall ops ops' fuel c f f' outs,
+  cache_invx c -> R c f -> same_calls (k_cs c) f ops ops' ->
+  xrun (k_cs c) f ops = Some (f', outs) -> (xrun_fuel (k_cs c) f ops <= fuel)%nat ->
+  exists c' outs', crun fuel c ops' = Ok (c', outs') /\ map norm_out outs' = map norm_out outs /\
+    cache_invx c' /\ R c' f' /\ logical c' = f_bytes f' /\
+    exists c'', flush c' = Ok c'' /\ k_disk c'' = f_bytes f'.
+Proof. exact cache_refines_xflat_variants. Qed.
+
+(** every history of the byte-level model is, file by file, a list of buffer calls whose events
+    are exactly the logged ones (the log is what the correspondence check compares with the real
+    I/O trace, event by event) *)
+Theorem C07_every_history_is_a_list_of_buffer_calls : forall ops m m' outs,
+  io_run m ops = Ok (m', outs) -> calls_between (m_st m) (m_st m').
+Proof. exact io_run_calls. Qed.
+
+(** a step whose events pass the decidable test [evs_ok] (evaluated, extracted, on every call of
+    every history of the correspondence runs) is served by ANY cache in front of each file: the
+    calls return what the flat file returned to the map layer, the cache then represents the file
+    after the step, and a flush puts exactly those bytes on the disk *)
+Theorem C07_checked_step_over_any_buffer : forall s s' evs,
+  calls_between s s' -> s_log s' = rev evs ++ s_log s ->
+  (forall f, evs_ok (fcs (Io.get_file s f)) f (fp (Io.get_file s f)) (fend (Io.get_file s f)) evs = true) ->
+  exists (cf : fid -> list call) evs',
+    s_log s' = rev evs' ++ s_log s /\
+    (forall f, evs_on f evs' = tevs f (flat_of (Io.get_file s f)) (cf f)) /\
+    forall f, served_by_cache s s' f (cf f).
+Proof. intros s s' evs H1 H2 H3. exact (in_domain_served s s' (checked_step_in_domain s s' evs H1 H2 H3)). Qed.
+
+(** every buffer setting the crate accepts (all but the known finding) gives such a cache *)
+Theorem C07_every_setting_backs_the_file : forall b disk c chunk,
+  (forall p, b = BPerMilleP p -> 1000 <= p) -> open_param b disk = Ok c -> k_cs c = chunk ->
+  backs c (File disk 0 chunk).
+Proof. exact every_setting_backs. Qed.
+
+(** WITHOUT any test: after [create] with a power of two of buckets and ANY history, every
+    read-only operation (get, includes_key, len, a whole traversal, the statistics) returns the
+    record-level result, leaves the images unchanged, and its calls on each of the three files are
+    served by any cache in front of that file - the number of chunks, the per-mille / auto growth,
+    what is cached and what was evicted cannot be observed *)
+Theorem C07_readonly_operations_over_any_buffer : forall t n bk bv bh ops,
+  1 <= n -> pow2 n -> Forall (op_wf t) ops -> sized (Store.create t n) ops ->
+  exists m0 m' s',
+    Io.create t n bk bv bh = Ok m0 /\
+    store_run (Store.create t n) ops = Ok (s', snd (spec_run ∅ ops)) /\
+    io_run m0 ops = Ok (m', snd (spec_run ∅ ops)) /\
+    render s' = Ok (Io.images m') /\
+    (forall key r, Store.get s' key = Ok r ->
+       exists m2, Io.get m' key = Ok (r, m2) /\ Io.images m2 = Io.images m' /\
+         exists cf, forall f, served_by_cache (m_st m') (m_st m2) f (cf f)) /\
+    (forall key r, Store.has s' key = Ok r ->
+       exists m2, Io.has m' key = Ok (r, m2) /\ Io.images m2 = Io.images m' /\
+         exists cf, forall f, served_by_cache (m_st m') (m_st m2) f (cf f)) /\
+    (exists m2, Io.len m' = Ok (Store.len s', m2) /\ Io.images m2 = Io.images m' /\
+         exists cf, forall f, served_by_cache (m_st m') (m_st m2) f (cf f)) /\
+    (forall items h ex, Iter.iter_run s' = Ok (items, h, ex) ->
+       exists m2, Io.iter_run m' = Ok (items, h, ex, m2) /\ Io.images m2 = Io.images m' /\
+         exists cf, forall f, served_by_cache (m_st m') (m_st m2) f (cf f)) /\
+    (forall r, Stats.stats_of s' = Ok r ->
+       exists m2, Io.stats_of m' = Ok (r, m2) /\ Io.images m2 = Io.images m' /\
+         exists cf, forall f, served_by_cache (m_st m') (m_st m2) f (cf f)).
+Proof. exact readonly_over_any_cache. Qed.
+
+(** a whole session - create, two puts, a get, a traversal, the statistics, a delete - computed:
+    406 events, among them a read that ends beyond the end of the 258-byte table file; every file
+    passes [evs_ok] for 4 KiB chunks (and the table file does NOT for 4-byte chunks) *)
+Example C07_session_in_the_domain :
+  exists log,
+    (let* m0 := Io.create KBytes 16 BufAuto BufAuto BufAuto in
+     let* m1 := Io.put m0 [1;2;3] [9;9] in
+     let* m2 := Io.put m1 [4;5] [7] in
+     let* (_, m3) := Io.get m2 [1;2;3] in
+     let* (_, m4) := Io.iter_run m3 in
+     let* (_, m5) := Io.stats_of m4 in
+     let* (_, m6) := Io.del m5 [4;5] in
+     Ok (rev (s_log (m_st m6)))) = Ok log /\
+    forall f, evs_ok 4096 f 0 0 log = true.
+Proof.
+  eexists. split; [vm_compute; reflexivity|]. intros [| |]; vm_compute; reflexivity.
+Qed.
